@@ -311,7 +311,8 @@ void h_rg_collect(void)
   PROP(n_init == 1 && init_mbs == bs100k * 100000ul && n_collect == 1 && n_encode == 1 && collect_enc == encode_enc, "one fresh encoder of the level's capacity per block; it is encoded after one collect call");
   PROP(collect_buf == nx0 && collect_len == left0, "the block is collected from the unread rest of its input piece");
   { size_t used = left0 - (IN.collect_left >= left0 ? left0 - 1 : IN.collect_left);
-    PROP(ib->left == left0 - used && (ib->left == 0 || ib->next == nx0 + used), "the input piece remembers how far it was consumed"); }
+    if (left0 - used > 0)                 /* a fully consumed piece has been released: nothing to look at */
+      PROP(ib->left == left0 - used && ib->next == nx0 + used, "the input piece remembers how far it was consumed"); }
 }
 
 /* ---- sequential mode: packing runs across input pieces (C04) ---- */
